@@ -25,33 +25,31 @@ CLAIM = {
              "FALSE on the current tree: C15_full_false gives three witnesses (payee containing `;`, note with a line break, payee "
              "starting with `(`), known finding F15, replayed through the real CSV importer on every run. "
              "READ-BACK, now a theorem over the printer / parser models of C05 (Okane.Unparse with a precision table, Okane.Parse): "
-             "C15_readback — for every record inside CleanText that puts no signed zero into the tree (noSignedZero: amount not -0, "
-             "counter number not 0 under a non-negative amount, balance / rates / charges not -0), every imported account, every "
-             "precision table with all precisions <= 28 and every display-width function, the tree readbackTxn prec tr (the "
-             "transaction built with every number padded exactly as display.rs::rescale pads it and tagged as the literal scanner tags "
-             "it) satisfies wfEntry and plainEntry, the text the importer prints under the configured precisions (printTransactionP) is "
-             "exactly the C05 printer's text of that tree (printTransactionP_rescale: printing with precisions = printing the rescaled "
-             "tree, for EVERY tree), and the entry parser consumes exactly that text and returns readbackTxn prec tr, stopping at the "
-             "blank line; C15_readback_number / C15_readback_shape — readbackTxn changes nothing but the padding of numbers (same "
-             "value, scale max(scale, precision) when the mantissa fits, same sign on non-zero numbers, format tag `plain` from four "
-             "integer digits on; all text fields, states, accounts, tags untouched); C15_readback_ledger — one transaction per record "
-             "and nothing else: the ledger parser reads the whole output of ImportCmd::run (toDoubleEntries = ledgerOf, each "
-             "transaction followed by an empty line) as exactly the list of those trees in order. Both extra conditions are shown "
-             "necessary for this route: C15_readback_prec_needed (precision 29: the printed number has 29 decimals and the parser "
-             "rejects the text), C15_signed_zero_not_fixed (amount 0.00: the counter-posting is printed `-0.00`, read back as `0.00`, so "
-             "the tree read back does not print the text it was read from and the C05 round trip cannot apply). NOT proved: "
-             "C15_readback_stmt (the same parse statement for records with a signed zero) is kept visible; on the zero-amount witness "
-             "the parser model does return readbackTxn prec tr (C15_readback_zero_witness, kernel-evaluated), so it is expected to hold "
-             "but needs a posting-parser proof outside the C05 round trip. The oracle on the real printer and parser still runs on "
-             "every case. "
+             "C15_readback (= the full statement C15_readback_stmt) — for EVERY record inside CleanText, every imported account, "
+             "every precision table with all precisions <= 28 and every display-width function: to_double_entry returns tr, the text "
+             "the importer prints for it under the configured precisions (printTransactionP; printTransactionP_rescale: printing with "
+             "precisions = printing the tree whose numbers are rescaled, for EVERY tree) starts an entry, and the entry parser consumes "
+             "exactly that text, stops at the blank line, and returns readbackTxn prec tr — tr with every number padded exactly as "
+             "display.rs::rescale pads it and as the literal scanner returns it; C15_readback_number / C15_readback_shape — readbackTxn "
+             "changes nothing but the padding of numbers (same value, scale max(scale, precision) when the mantissa fits, same sign on "
+             "non-zero numbers, format tag `plain` from four integer digits on, no sign on a zero; all text fields, states, accounts, "
+             "tags untouched); C15_readback_ledger — one transaction per record and nothing else: for every list of CleanText records "
+             "the ledger parser reads the whole output of ImportCmd::run (toDoubleEntries = ledgerOf, each transaction followed by an "
+             "empty line) as exactly the list of those trees in order. The one extra condition is necessary: "
+             "C15_readback_prec_needed (precision 29: the printed number has 29 decimals and the parser rejects the text). "
+             "C15_readback_wf — when no number enters the tree as a signed zero (noSignedZero) the tree read back satisfies wfEntry / "
+             "plainEntry of C05 and prints to exactly the text it was read from (C05_entry applies, the output is a fixed point of "
+             "format); C15_signed_zero_not_fixed shows that condition is needed for this part (amount 0.00: counter-posting printed "
+             "`-0.00`, read back as `0.00`); records with signed zeros are covered by a relational version of the C05 posting / "
+             "transaction / ledger round trip (Lemmas/ImportReadbackZero.lean: exprRd_amt from C07_print_exact, posting_rd, "
+             "transaction_rd, parseEntries_texts). The oracle on the real printer and parser still runs on every case. "
              "Streams: (1) random Txn builder sequences through the real "
              "single_entry::Txn and to_double_entry versus the model, printed with the real DisplayContext and re-read with the real "
              "parser, partitioned by the Lean CleanText predicate: inside the class any read-back difference is a violation, "
              "outside it differences are matched against the F15 class; (2) CSV / Viseca / Camt053 files with hostile text through the "
              "real importers, same oracle with ReadableTree evaluated on the tree the importer built; one transaction per record."),
     "note": ("the read-back theorems are about the Lean models of the printer and the parser (validated against the real code by the "
-             "C05 / C07 / C19 correspondence checks), tied to the real importer output by this check's oracle; records with a signed "
-             "zero (e.g. amount 0) are covered by the oracle only; csv / quick-xml / regex / chrono decoding "
+             "C05 / C07 / C19 correspondence checks), tied to the real importer output by this check's oracle; csv / quick-xml / regex / chrono decoding "
              "are outside the model (the model starts from the decoded record); rust_decimal arithmetic outside 96 bits / scale 28 is "
              "not modelled."),
     "design_ref": "DESIGN.md section 6, C15; finding F15 in section 7",
@@ -61,11 +59,13 @@ THEOREMS = [
     "Okane.Import.C15_tree", "Okane.Import.C15_one_per_record", "Okane.Import.C15_never_err", "Okane.Import.C15_counter_amount",
     "Okane.Import.C15_rate_placement", "Okane.Import.C15_value", "Okane.Import.C15_rescale_value", "Okane.Import.C15_partial",
     "Okane.Import.C15_full_false",
-    "Okane.Import.C15_readback", "Okane.Import.C15_readback_partial", "Okane.Import.C15_readback_ledger",
-    "Okane.Import.C15_readback_number", "Okane.Import.C15_readback_shape", "Okane.Import.C15_plainNums",
-    "Okane.Import.C15_readback_prec_needed", "Okane.Import.C15_signed_zero_not_fixed", "Okane.Import.C15_readback_zero_witness",
+    "Okane.Import.C15_readback", "Okane.Import.C15_readback_wf", "Okane.Import.C15_readback_ledger",
+    "Okane.Import.C15_readback_number", "Okane.Import.C15_readback_shape", "Okane.Import.C15_plainNums", "Okane.Import.C15_untagged",
+    "Okane.Import.C15_readback_prec_needed", "Okane.Import.C15_signed_zero_not_fixed",
     "Okane.Import.printTransactionP_rescale", "Okane.Import.printTransactionP_noPrec", "Okane.Import.readback_tree",
     "Okane.Import.readback_ledger", "Okane.Import.readableTree_wf", "Okane.Import.ledgerOf_eq",
+    "Okane.Import.exprRd_amt", "Okane.Import.posting_rd", "Okane.Import.transaction_rd", "Okane.Import.entryRd_txn",
+    "Okane.Import.parseEntries_texts", "Okane.Import.readback_tree_all", "Okane.Import.readback_ledger_all",
 ]
 
 # ------------------------------------------------------------------------------------------------
